@@ -41,6 +41,9 @@ impl SnmpPriv for DesKey {
         self.key.copy_from_slice(&key[..ENC_KEY_LENGTH]);
         self.pre_iv
             .copy_from_slice(&key[ENC_KEY_LENGTH..KEY_LENGTH]);
+        #[cfg(gufo_snmp_verif)]
+        let mut rng = crate::verif::rng();
+        #[cfg(not(gufo_snmp_verif))]
         let mut rng = rand::rng();
         self.salt_value = rng.random();
         Ok(())
